@@ -215,8 +215,14 @@ def gen_pass_rule(rng, t, stage, direction, literal_only=True, biased_nonconsumi
     r = rng.random()
     if biased_nonconsuming and r < 0.35:
         # zero-width brackets / look-back inside or after brackets / self-replacement
-        kind = rng.choice(["zero", "lookback_in", "lookback_after", "self", "lookback_before"])
-        if kind == "zero":
+        kind = rng.choice(["zero", "lookback_in", "lookback_after", "self", "lookback_before", "lookback_zero", "lookback_zero"])
+        if kind == "lookback_zero":
+            # look back, open and close the brackets THERE (in front of the tried position), then match forward across it:
+            # the replaced range ends before the match starts (seeded change C03-F)
+            test = "_%d[]" % rng.randint(1, 2) + lit(test_chars, rng.randint(1, 3))
+            if rng.random() < 0.4:
+                test = "_%d[" % rng.randint(1, 2) + lit(test_chars, 1) + "]" + lit(test_chars, rng.randint(1, 2))
+        elif kind == "zero":
             test = "[]" + lit(test_chars, rng.randint(1, 2))
         elif kind == "lookback_in":
             test = lit(test_chars, 1) + "[_1" + lit(test_chars, 1) + "]"
